@@ -19,6 +19,11 @@ CLAIMS = {
             'the normal reader cannot reach the unauthenticated decrypt functions (direct-caller allowlists), every cipher of the layer '
             'is keyed by build_nonce(prefix, chunk counter), and the footer is read through the authenticated layer stack. Does not '
             'decide that the tag arithmetic is the standard one (numeric).'),
+    'C04': (TECH_RULES, '§4 C04',
+            'Decides, for all paths: unauthenticated chunk loads sit only under the DataEvenUnauthenticated arm of the mode switch; the default '
+            'mode is OnlyAuthenticatedData and only the two setters change it; the CLI enables the unauthenticated mode only on the true edge of '
+            'the --allow-unauthenticated-data flag (declared SetTrue); the constructor and the wrong-tag arm are checked for mode respect and a '
+            'stop latch (two genuine defects recorded as known findings). Byte-level prefix relations are not decided.'),
 }
 
 NOT_APPLICABLE = {
